@@ -126,7 +126,14 @@ def rule_f(ctx):
     K.check_floors(ctx, "C03")
 
 
+def rule_g(ctx):
+    from . import c10, c07
+    c10.rule_a(ctx)
+    c10.rule_d(ctx)
+    c07.rule_b(ctx)
+
 RULES = [
+    ("C03.g", "scheduler-originated events: every due action is pulled through the helper and executed once", rule_g),
     ("C03.a", "a message closure is consumed at most once and never dropped on Full", rule_a),
     ("C03.b", "every Sender implementation sends exactly once (or not at all iff filtered)", rule_b),
     ("C03.c", "fan-out: one future per accepting connection, all awaited", rule_c),
